@@ -129,7 +129,12 @@ loop:
 			}
 			deploymentCounter.WithLabelValues("reserve-hostnames", "success").Inc()
 			defer dm.hostnameService.ReleaseHostnames(allHostnames)
-			runch = dm.startDeploy()
+			if dm.state == dsTeardownPending {
+				// the lease was closed while the hostnames were being reserved: tear down instead of deploying
+				runch = dm.startTeardown()
+			} else {
+				runch = dm.startDeploy()
+			}
 
 		case shutdownErr = <-dm.lc.ShutdownRequest():
 			break loop
